@@ -23,7 +23,7 @@ EVID = os.path.join(VERIF, "evidence")
 REPLAYS = os.path.join(VERIF, "replays")
 ALLOWED_AXIOMS = {"propext", "Classical.choice", "Quot.sound"}
 DRIVERS = ["drv_hist", "drv_layout", "drv_cmp", "drv_ovf", "drv_serde", "drv_traits"]
-HARNESS_BINS = ["hist", "cmp", "ovf", "serdecorr"]
+HARNESS_BINS = ["hist", "cmp", "ovf", "serdecorr", "uninit"]
 OFFLINE_ENV = {"CARGO_NET_OFFLINE": "true", "GOPROXY": "off", "PIP_NO_INDEX": "1"}
 
 TRUSTED_BASE = [
@@ -163,6 +163,18 @@ class Ctx:
         print(line)
         sys.stdout.flush()
         return path
+
+    def defer_nfi(self, body):
+        """a `no-failing-input-found` verdict that is only reported if, at the end of the check, no
+        concrete failing input has been reported for this property (bin/check flushes it)"""
+        self.pending_nfi = getattr(self, "pending_nfi", [])
+        self.pending_nfi.append(body)
+
+    def flush_nfi(self):
+        pend = getattr(self, "pending_nfi", [])
+        if pend and not any(v["found_input"] for v in self.violations):
+            self.violation("theorem", "\n\n".join(pend), False)
+        self.pending_nfi = []
 
     def known_finding(self, key, what):
         line = "KNOWN-FINDING: property=%s %s [%s]" % (self.prop, what, key)
@@ -335,12 +347,12 @@ def axiom_audit(module, names=None):
     os.unlink(f)
     res = {}
     ok = rc == 0
-    for m in re.finditer(r"'([^']+)' depends on axioms: \[([^\]]*)\]", out, re.S):
+    for m in re.finditer(r"'(\S+)' depends on axioms: \[([^\]]*)\]", out, re.S):
         axs = [a.strip() for a in m.group(2).replace("\n", " ").split(",") if a.strip()]
         res[m.group(1)] = axs
         if not set(axs) <= ALLOWED_AXIOMS:
             ok = False
-    for m in re.finditer(r"'([^']+)' does not depend on any axioms", out):
+    for m in re.finditer(r"'(\S+)' does not depend on any axioms", out):
         res[m.group(1)] = []
     if len(res) != len(names):
         ok = False
